@@ -82,8 +82,46 @@ struct CD_ : state_machine_def<CD_> {
 };
 typedef BE<CD_> CD;
 #endif
+// events deferred INSIDE a submachine and kept across its exit by the history policy: when the submachine is re-entered in a
+// configuration that does not defer them they are re-offered at once, before any later event (C05).  back / back11 (history is a
+// back-end policy there; backmp11 clears / keeps its pool by other rules, monitored by `hist` / `queue`).
+#if !IS_MP11
+#include <boost/msm/back/history_policies.hpp>
+struct out_ {}; struct in_hist {}; struct in_plain {};
+struct DS_ : state_machine_def<DS_> {
+  struct Calm : state<> {}; struct Hold : state<> { typedef mpl::vector<E> deferred_events; };
+  typedef Calm initial_state;
+  struct transition_table : mpl::vector< Row<Calm,N,Hold,none,none>, Row<Calm,E,none,LogE,none> > {};
+  template<class Fsm,class Ev> void no_transition(Ev const&,Fsm&,int){ ++g_nt; }
+};
+#if defined(CFG_back11)
+struct DT_;
+typedef msm::back11::state_machine<DS_, msm::back11::state_machine<DT_>, msm::back::ShallowHistory<mpl::vector<in_hist, out_>>> DS;
+#else
+typedef msm::back::state_machine<DS_, msm::back::ShallowHistory<mpl::vector<in_hist, out_>>> DS;
+#endif
+struct DT_ : state_machine_def<DT_> {
+  struct Outside : state<> {};
+  typedef DS initial_state;
+  struct transition_table : mpl::vector< Row<DS,out_,Outside,none,none>, Row<Outside,in_hist,DS,none,none>, Row<Outside,in_plain,DS,none,none> > {};
+  template<class Fsm,class Ev> void no_transition(Ev const&,Fsm&,int){ ++g_nt; }
+};
+typedef BE<DT_> DT;
+#endif
 int main(int argc, char** argv) {
   if (argc > 1) g_only = argv[1];
+#if !IS_MP11
+  { g_seen.clear(); g_nt = 0; DT m; m.start();
+    m.process_event(N());                                   // inner: Calm -> Hold (defers E)
+    m.process_event(E(1)); m.process_event(E(2));           // deferred inside the submachine
+    const bool held = g_seen.empty() && g_nt == 0;
+    m.process_event(out_());                                // leave by an event of the history list: shallow history remembers Hold AND keeps the pending events (process_deferred_events)
+    m.process_event(in_plain());                            // re-enter by a NON-history event: initial state Calm, which does not defer E
+    const bool at_once = g_seen.size() == 2 && g_seen[0] == 1 && g_seen[1] == 2;
+    m.process_event(E(3));
+    report("deferred-inside-submachine.re-offered-on-re-entry-before-later-events", held && at_once && g_seen.size() == 3 && g_seen[2] == 3 && g_nt == 0, "C05,C08",
+           "held=" + std::to_string(held) + " seen=" + [&]{ std::string t; for (int x : g_seen) t += std::to_string(x) + " "; return t; }() + "nt=" + std::to_string(g_nt)); }
+#endif
 #if !IS_MP11
   { g_clog.clear(); g_nt = 0; CD m; m.start(); m.process_event(G());          // region A: Idle -> Armed (-> Fired by completion); region B defers G
     const bool fired_now = g_clog == "fired ";
